@@ -141,6 +141,9 @@ fn run_case<G: AffineRepr>(bp: &BulletproofGens<G>, curve: &str, c: &Case) -> Ca
     let gf: Vec<F<G>> = match c.factor_kind {
         0 => vec![F::<G>::one(); n],
         1 => (0..n).map(|i| if i < c.split.min(n) { F::<G>::one() } else { u }).collect(),
+        // 3: u^s || 1^(n-s) (ones at the END); 4: random with ones forced at the first, middle and last position
+        3 => (0..n).map(|i| if i < c.split.min(n) { u } else { F::<G>::one() }).collect(),
+        4 => (0..n).map(|i| if i == 0 || i == n / 2 || i + 1 == n { F::<G>::one() } else { F::<G>::rand(&mut rng) }).collect(),
         _ => (0..n).map(|_| F::<G>::rand(&mut rng)).collect(),
     };
     let mut yp = F::<G>::one();
@@ -274,6 +277,43 @@ fn run_case<G: AffineRepr>(bp: &BulletproofGens<G>, curve: &str, c: &Case) -> Ca
     check("correct-P", n, &m, &gf, &hf, &P, if degenerate { Some(false) } else { Some(true) }, &mut o);
     o.sig(format!("{}|k={}|vec={}|fac={}|split={}|deg={}", curve, c.k, c.vec_kind, c.factor_kind, if c.factor_kind == 1 { c.split } else { 0 }, degenerate));
     let e = |b: bool| if dense && !degenerate && b { Some(false) } else { None };
+    // sequential composition: two arguments on one transcript pair (the second one's challenges depend
+    // on everything the first one absorbed on either side)
+    if n <= 16 && !degenerate {
+        let a2: Vec<F<G>> = b.clone();
+        let b2: Vec<F<G>> = a.iter().map(|x| *x + F::<G>::one()).collect();
+        let ip2: F<G> = a2.iter().zip(&b2).map(|(x, y)| *x * y).sum();
+        let mut P2 = smul(&Q, ip2);
+        for i in 0..n {
+            P2 += smul(&Gs[i], a2[i] * gf[i]) + smul(&Hs[i], b2[i] * hf[i]);
+        }
+        let P2 = P2.into_affine();
+        let r2 = guarded(|| {
+            let mut tp = Transcript::new(b"ipp-seq");
+            let p1 = InnerProductProof::<G>::create(&mut tp, &Q, &gf, &hf, Gs[..n].to_vec(), Hs[..n].to_vec(), a.clone(), b.clone());
+            let p2 = InnerProductProof::<G>::create(&mut tp, &Q, &gf, &hf, Gs[..n].to_vec(), Hs[..n].to_vec(), a2.clone(), b2.clone());
+            let mut tv = Transcript::new(b"ipp-seq");
+            let v1 = p1.verify(n, &mut tv, gf.iter(), hf.iter(), &P, &Q, &Gs[..n], &Hs[..n]).is_ok();
+            let v2 = p2.verify(n, &mut tv, gf.iter(), hf.iter(), &P2, &Q, &Gs[..n], &Hs[..n]).is_ok();
+            let deg2 = of_real(&p2).map(|m| m.L.iter().chain(m.R.iter()).any(|p| p.is_zero())).unwrap_or(true);
+            (v1, v2, deg2)
+        });
+        o.evals += 1;
+        match r2 {
+            Ok((v1, v2, deg2)) => {
+                if !v1 || (!v2 && !deg2) {
+                    o.violate("ipp-sequential", format!("two arguments created and verified one after the other on one transcript pair: first accepted = {}, second accepted = {}", v1, v2), ctxj("sequential"));
+                } else {
+                    o.count("sequential composition on one transcript pair: both accepted", 1);
+                }
+            }
+            Err((loc, msg)) => {
+                if !is_harness_loc(&loc) {
+                    o.violate(format!("ipp-panic@{}", loc), format!("sequential create/verify panicked at {}: {}", loc, msg), ctxj("sequential"));
+                }
+            }
+        }
+    }
     // adaptive forgery per round: with the round challenges observed on the honest proof, shift
     // R_k so that the proof would open P + delta*Q if u_k did not depend on R_k
     if k_rounds_ok(&m) {
@@ -397,13 +437,16 @@ fn cases(ctx: &Ctx, curve: &str) -> Vec<Case> {
         let splits: Vec<usize> = if n <= 16 { (0..=n).collect() } else { vec![0, 1, n / 2 - 1, n / 2, n / 2 + 1, n - 1, n, r.below(n)] };
         for s in splits {
             v.push(Case { curve: curve.into(), k, seed: r.u64(), vec_kind: 0, factor_kind: 1, split: s });
+            v.push(Case { curve: curve.into(), k, seed: r.u64(), vec_kind: 0, factor_kind: 3, split: s });
         }
+        v.push(Case { curve: curve.into(), k, seed: r.u64(), vec_kind: 0, factor_kind: 4, split: 0 });
+        v.push(Case { curve: curve.into(), k, seed: r.u64(), vec_kind: 4, factor_kind: 4, split: 0 });
     }
     let extra = ctx.n(0, 2000);
     for _ in 0..extra {
         let k = r.below(kmax as usize + 1) as u32;
         let n = 1usize << k;
-        v.push(Case { curve: curve.into(), k, seed: r.u64(), vec_kind: r.below(9) as u8, factor_kind: r.below(3) as u8, split: r.below(n + 1) });
+        v.push(Case { curve: curve.into(), k, seed: r.u64(), vec_kind: r.below(9) as u8, factor_kind: r.below(5) as u8, split: r.below(n + 1) });
     }
     v
 }
